@@ -489,7 +489,7 @@ func tierRuns(prop, tier string) (runs int, budget float64) {
 	if tier == "thorough" {
 		return 4000000, 1200
 	}
-	return 24000, 75
+	return 48000, 75
 }
 
 func cmdCheck(args []string) int {
